@@ -2,3 +2,4 @@
 import CliUtils.Props.C19
 import CliUtils.Props.C15
 import CliUtils.Props.C06
+import CliUtils.Props.C20
